@@ -495,9 +495,10 @@ def conv_family():
                     H("c06_try_%s_%d_%s" % (nm, n, s), "h_conv::int_to_float_exact::<%d>(%s,%s)" % (n, SIGN[s], "true" if f64_ else "false"),
                       Q("C06") if (quick and n <= 3) else TH("C06", "C19"), cfg, unwind=n + 6,
                       bound="TryFrom<UBig/IBig> for %s, integer of exactly %d words (%s)" % (nm, n, s))
-    # TryFrom<f32/f64> for UBig/IBig (decode, then <<= / >>= by a data-dependent amount) is NOT harnessed:
-    # every formulation tried (exponent window, inline-only regime) ran out of memory in CBMC because the
-    # shift amount - and with it the size of the buffer built by <<= - stays symbolic (see DESIGN 3/C06).
+    # TryFrom<f32/f64> for UBig/IBig and NumOrd against f32/f64 (decode, then << / >> by a data-dependent amount)
+    # are NOT harnessed: every formulation tried (exponent windows, inline-only regime, before and after the
+    # cut was moved inside the heap arms) ran out of memory in CBMC because the shift amount - and with it
+    # the size of the buffer built by << - stays symbolic (see DESIGN 3/C06, C14).
 
 
 def text_family():
@@ -613,6 +614,79 @@ def mod_family():
         H("c13_mix_%d" % op, "h_mod::ring_mix(%d)" % op, Q("C13", "C16"), kind="panic", unwind=8, bound="operands from two ConstDivisor instances panic")
 
 
+MODES = ["Zero", "Away", "Up", "Down", "HalfEven", "HalfAway"]
+
+
+def round_family():
+    for m, mn in enumerate(MODES):
+        H("c10_round_low_part_%s" % mn, "h_round::round_low_part(%d)" % m, Q("C10", "C03"), unwind=4,
+          bound="Round::round_low_part, mode %s, |integer| < 2^40, every (sign of low part, |low| cmp 1/2)" % mn)
+        for B, ps in ((2, (1, 3, 8)), (3, (1, 2, 5)), (10, (1, 2, 3)), (16, (1, 2)), (36, (1, 2))):
+            for p in ps:
+                q = (B in (2, 10) and p in (1, 3)) or (B == 3 and p == 2 and m >= 4)
+                H("c10_round_fract_%s_b%d_p%d" % (mn, B, p), "h_round::round_fract::<%d>(%d,%d)" % (B, m, p), Q("C10", "C03") if q else TH("C10", "C03"), "i64", unwind=12,
+                  bound="Round::round_fract::<%d>, mode %s, precision %d, every |fract| < %d^%d and |integer| < 2^20" % (B, mn, p, B, p))
+        for bits in (4, 10):
+            H("c10_round_ratio_%s_%d" % (mn, bits), "h_round::round_ratio(%d,%d)" % (m, bits), Q("C10", "C03") if bits == 4 else TH("C10", "C03"), "i64", unwind=8,
+              bound="Round::round_ratio, mode %s, |num| <= |den| < 2^%d, every sign combination" % (mn, bits))
+    H("c10_add_rounding", "h_round::add_rounding()", Q("C10", "C03"), "i64", unwind=6, bound="IBig + Rounding, |integer| < 2^40")
+    for B in (2, 10, 3, 16):
+        H("c15_fbig_shift_b%d" % B, "h_round::fbig_shift::<%d>()" % B, Q("C15") if B in (2, 10) else TH("C15"), "i64", unwind=8,
+          bound="FBig<Zero,%d> << / <<= / >> / >>=, |significand| < 2^30 (normalised), |exponent|,|k| < 1000" % B)
+    H("c15_fbig_shift_zero", "h_round::fbig_shift_zero()", Q("C15"), "i64", unwind=8, bound="FBig zero under every shift form, |k| < 1000")
+
+
+def numord_family():
+    PN = ["u8", "u16", "u32", "u64", "u128", "usize", "i8", "i16", "i32", "i64", "i128", "isize"]
+    for cfg in ("w64", "w32"):
+        for n in range(0, 4 if cfg == "w64" else 6):
+            for s in "pn":
+                if n == 0 and s == "n":
+                    continue
+                for w, nm in enumerate(PN):
+                    q = cfg == "w64" and (w + n + (s == "n")) % 3 == 0
+                    H("c14_ord_%s_%d_%s" % (nm, n, s), "h_numord::ord_prim::<%d>(%s,%d)" % (n, SIGN[s], w), Q("C14") if q else (TH("C14") if cfg == "w64" else TH("C14", "C19")), cfg,
+                      unwind=n + 6, bound="NumOrd between UBig/IBig of exactly %d words (%s) and every %s, both directions" % (n, s, nm))
+    for na in range(0, 4):
+        for nb in range(0, 4):
+            for sb in "pn":
+                if nb == 0 and sb == "n":
+                    continue
+                H("c14_ord_ui_%d%d_%s" % (na, nb, sb), "h_numord::ord_ui::<%d,%d>(%s)" % (na, nb, SIGN[sb]), Q("C14") if (na + nb) % 2 == 0 else TH("C14"), unwind=max(na, nb) + 6,
+                  bound="NumOrd UBig(len %d) vs IBig(len %d, %s)" % (na, nb, sb))
+    for w, nm in enumerate(("u64", "i64", "u128", "i128")):
+        H("c14_numhash_%s" % nm, "h_numord::hash_prim(%d)" % w, Q("C14") if w < 2 else TH("C14"), "i64", unwind=40, bound="NumHash byte stream of UBig/IBig equals that of the primitive %s of the same value, every value" % nm)
+
+
+def buf_family():
+    OPS_B = ["push_resizing", "push_zeros", "push_zeros_front", "push_slice", "pop_truncate", "erase_front", "ensure_capacity", "ensure_capacity_exact",
+             "shrink_to_fit", "clone_from_slice", "into_boxed_slice", "clone", "clone_from", "push_resizing_x3"]
+    for n in range(0, 5):
+        for cv in range(3):
+            for op, on in enumerate(OPS_B):
+                q = n in (1, 2, 3) and cv == (op + n) % 3
+                H("c17_buffer_%s_%d_c%d" % (on, n, cv), "h_buf::buffer_op::<%d,%d>(%d,%d)" % (n, n + 4, cv, op), Q("C17") if q else TH("C17"), unwind=n + 8,
+                  bound="Buffer::%s on %d symbolic words (capacity variant %d) followed by Repr::from_buffer: value and invariants" % (on, n, cv))
+    for n in range(0, 5):
+        H("c17_roundtrip_%d" % n, "h_buf::into_buffer_roundtrip::<%d>()" % n, Q("C17") if n <= 3 else TH("C17"), unwind=n + 6, bound="from_words(as_words) / clone / drop, length %d" % n)
+    H("c17_memory_slices", "h_buf::memory_slices()", Q("C17"), unwind=8, bound="Memory bump allocator: three slices in bounds, disjoint, contents kept")
+    H("c17_memory_exhausted", "h_buf::memory_exhausted()", Q("C17", "C16"), kind="panic", unwind=8, bound="Memory bump allocator refuses more than its chunk")
+    for n in (1, 2, 3):
+        for w in range(3):
+            H("c17_self_assign_%d_%d" % (n, w), "h_buf::self_assign::<%d,%d>(%d)" % (n, n + 1, w), Q("C17", "C15") if (n + w) % 2 == 0 or n == 2 else TH("C17", "C15"), unwind=n + 6,
+              bound="x op= &x.clone() sequences across the inline/heap boundary, length %d" % n)
+    TY = ["u8", "u16", "u32", "i8", "i16", "i32"]
+    OPN = ["add", "sub", "mul", "div", "rem"]
+    for s in "pn":
+        for ty, tn in enumerate(TY):
+            for op, on in enumerate(OPN):
+                q = tn in ("u8", "i8", "u32") and (s == "n" or op in (1, 4))
+                H("c16_ibig_%s_%s_%s" % (on, tn, s), "h_buf::ibig_prim(%s,%d,%d,10)" % (SIGN[s], ty, op), Q("C16", "C15") if q else TH("C16", "C15"), "i64", unwind=8,
+                  bound="IBig(|x| < 2^10, %s) %s %s in every provided form: no panic, value = big-big result" % (s, on, tn))
+    H("c16_ibig_rem_unsigned_negative", "h_buf::ibig_rem_unsigned_negative()", Q("C16"), "i64", unwind=8, finding="C16-ibig-rem-unsigned-negative",
+      bound="KNOWN FINDING twin: negative IBig % u8 with a non-zero remainder")
+
+
 def build():
     global T, _names
     T = []
@@ -627,4 +701,7 @@ def build():
     text_family()
     nt_family()
     mod_family()
+    round_family()
+    numord_family()
+    buf_family()
     return T
